@@ -25,6 +25,7 @@
      erase ts sch          the schedule without the steps of the collections *)
 From Coq Require Import List ZArith Bool Lia.
 From Verif Require Import C09.Model C09.Spec C09.Proofs C09.ProofsAudit C09.LimitRange C09.Registry C09.RegistryProofs.
+From Verif Require Import C09.Variants C09.VariantsProofs.
 Import ListNotations.
 Open Scope Z_scope.
 
@@ -758,3 +759,56 @@ Proof.
   split; [reflexivity|]. split; [cbn; lia|]. split; [repeat constructor|].
   split; [exact head_blocks_witness | exact head_witness].
 Qed.
+
+(* ------------------------------------------------------------------ *)
+(** Two more dimensions (Variants.v), each with a variant switch.
+
+    1. Spill-over: the group's share is taken of the WHOLE budget (allowed + carried over)
+    and rounded up once.  For every state, instant and window data (positive budget and
+    ratio, no int64 saturation): a request proceeds exactly when the requests already
+    counted in its window are fewer than budget * ratio (as a rational number), i.e. the
+    limit in force is ceil((allowed + carried over) * ratio) and nothing larger.  The
+    variant that rounds the two shares up separately (seeded change C09-12) lets a fifth
+    request through where 8 * 50 % = 4. *)
+Theorem C09_carry_share_exact : carry_share_exact WholeBudget.
+Proof. exact carry_share_exact_whole. Qed.
+Print Assumptions C09_carry_share_exact.
+
+Theorem C09_carry_share_split_ceilings_refuted : ~ carry_share_exact SplitCeilings.
+Proof. exact carry_share_exact_split_refuted. Qed.
+Print Assumptions C09_carry_share_split_ceilings_refuted.
+
+(* WholeBudget is what the model (and, through GenEquiv, the translated source) does; the
+   hypotheses of the statement are satisfiable and the witness state is an ordinary one:
+   HEAD rejects the fifth request, the split variant counts it *)
+Example C09_carry_share_example :
+  (forall now wd s, try_inc_v WholeBudget now wd s = try_inc now wd s) /\
+  limit_at 25 cs_wd cs_st = 4 /\ snd (try_inc 25 cs_wd cs_st) = Block /\
+  snd (try_inc_v SplitCeilings 25 cs_wd cs_st) = Proceed /\
+  limit_with_carry SplitCeilings 5 3 500000000 = 5.
+Proof. split; [exact try_inc_whole_budget|]. vm_compute. repeat split. Qed.
+
+(** 2. One plugin instance across configuration changes (the plugin and the limiter state
+    survive apply_policies): for every history of requests, each carrying the remedy record
+    in force when it is handled -- any number of versions under one name, same or different
+    numbers of groups -- and every state the instance may be in, every request is decided
+    (counter key, ratio, default behaviour) by the allocation table passed with it.  With
+    [C09_plugin_window_bound] / [C09_plugin_outcome], which are stated over [plugin_pre]:
+    the share in force is the one of the table in force.  The variant that keeps a
+    per-name index of the table and rebuilds it only when the number of groups changes
+    (seeded change C09-11) keeps deciding by the old percentages. *)
+Theorem C09_table_in_force : table_in_force LiveTable.
+Proof. exact table_in_force_live. Qed.
+Print Assumptions C09_table_in_force.
+
+Theorem C09_table_in_force_indexed_per_name_refuted : ~ table_in_force IndexedPerName.
+Proof. exact table_in_force_indexed_refuted. Qed.
+Print Assumptions C09_table_in_force_indexed_per_name_refuted.
+
+Example C09_table_in_force_example :
+  (forall ix r hs, plugin_pre_v LiveTable ix r hs = (ix, plugin_pre r hs)) /\
+  map (fun p => match p with PreLimit _ rb => snap rb | PreDone _ => -1 end)
+      (run_pre_v LiveTable [] rl_history) = [500000000; 200000000] /\
+  map (fun p => match p with PreLimit _ rb => snap rb | PreDone _ => -1 end)
+      (run_pre_v IndexedPerName [] rl_history) = [500000000; 500000000].
+Proof. split; [exact plugin_pre_live|]. vm_compute. split; reflexivity. Qed.
